@@ -8,7 +8,7 @@ ROOT = Path(__file__).resolve().parent.parent
 pats = sys.argv[1:] or ['*']
 SEEDED = Path('/verif/seeded')   # seeds and the result always live in the main checkout, the checks run from this checkout (may be a worktree)
 seeds = sorted(p.name for p in SEEDED.iterdir() if p.is_dir() and (p / 'meta.json').exists() and any(fnmatch.fnmatch(p.name, g) for g in pats))
-out_path = SEEDED / 'matrix.json'
+out_path = Path(os.environ['SEED_MATRIX_OUT']) if os.environ.get('SEED_MATRIX_OUT') else SEEDED / 'matrix.json'   # partitions run in parallel write their own file
 matrix = json.loads(out_path.read_text()) if out_path.exists() else {}
 extra = [c for c in os.environ.get('SEED_EXTRA', '').split(',') if c]
 for sid in seeds:
